@@ -162,7 +162,8 @@ def _sub_ranges(prog):
         name = label_at[a]
         end = b
         for k in range(a + 1, b):
-            if prog[k][0] == "label" and (k in ref.main_members) and prog[k - 1][0] in ("retsub", "return", "err", "b"):
+            # (also when that label block is dead code: it is not a member of the subroutine either)
+            if prog[k][0] == "label" and (k not in ref.sub_members[name]) and prog[k - 1][0] in ("retsub", "return", "err", "b"):
                 end = k
                 break
         if not ref.sub_members[name] <= set(range(a, end)):
@@ -276,7 +277,12 @@ def fragment(v, case, reeval):
             nxt, changed = R(cur)
             if not changed:
                 continue
-            got = reeval(nxt, case.version, None)
+            try:
+                got = reeval(nxt, case.version, None)
+            except Exception:
+                # a rewrite that does not yield an analysable program is not applicable; never an attribution
+                v.setdefault("classifier_note", "rewrite %s gave a program that could not be analysed" % name)
+                continue
             if got is not None and target not in got:
                 return name
             cur = nxt
@@ -297,7 +303,11 @@ def fragment(v, case, reeval):
         nxt, changed = R(cur)
         if not changed:
             continue
-        got = reeval(nxt, case.version, ex)
+        try:
+            got = reeval(nxt, case.version, ex)
+        except Exception:
+            v.setdefault("classifier_note", "rewrite %s gave a program that could not be analysed" % name)
+            continue
         if got is None:
             continue
         if target not in got:
